@@ -55,6 +55,12 @@ fn main() {
     q.push(0xff);
     let junk = ask(&server, &q, Transport::Udp).unwrap().unwrap();
     println!("D4 rcode clean={} with trailing octet={} (FORMERR=1) nscount={}", clean[3] & 15, junk[3] & 15, u16::from_be_bytes([junk[8], junk[9]]));
+    // D15: well-formed query for ns.test. A with an ordinary A record in the additional section (ARCOUNT=1)
+    let mut q15 = vec![0, 3, 0, 0, 0, 1, 0, 0, 0, 0, 0, 1];
+    q15.extend_from_slice(b"\x02ns\x04test\x00\x00\x01\x00\x01");
+    q15.extend_from_slice(b"\x01x\x00\x00\x01\x00\x01\x00\x00\x00\x00\x00\x04\x7f\x00\x00\x01");
+    let r15 = ask(&server, &q15, Transport::Udp).unwrap().unwrap();
+    println!("D15 query with an ordinary additional record: rcode={} ancount={} (expected rcode 0, ancount 1)", r15[3] & 15, u16::from_be_bytes([r15[6], r15[7]]));
     // D7: negative TTL: SOA TTL 60, MINIMUM 3600
     let r = Reader::try_from(&clean[..]).unwrap();
     let mut r = r; r.read_question().unwrap();
